@@ -199,6 +199,19 @@ def denial_checks():
         if types != ["websocket.http.response.start", "websocket.http.response.body"]:
             problems.append("denial with extension sent %s" % types)
         sent.clear()
+        # a wrapped response that sends another http.response.* event: not a legal denial event - refused, nothing forwarded
+        for odd in ("http.response.trailers", "http.response.zerocopysend", "http.response.push", "http.disconnect"):
+            async def odd_response(scope, receive_, send_, _t=odd):
+                await send_({"type": "http.response.start", "status": 403, "headers": []})
+                await send_({"type": _t})
+            try:
+                await WebsocketDenialResponse(odd_response)(
+                    {"type": "websocket", "headers": [], "extensions": {"websocket.http.response": {}}}, receive, send)
+                problems.append("denial response forwarded / accepted the event %s: %s" % (odd, [m["type"] for m in sent]))
+            except ValueError:
+                if [m["type"] for m in sent] != ["websocket.http.response.start"]:
+                    problems.append("after refusing %s the server had received %s" % (odd, [m["type"] for m in sent]))
+            sent.clear()
 
         @request_response
         async def view(request):
